@@ -150,3 +150,214 @@ pub fn agree(got: &Got, want: &rm::R) -> Result<(), String> {
         _ => Err(format!("implementation: {got:?}\nreference:      {want:?}")),
     }
 }
+
+// ---------------------------------------------------------------------------------------------
+// structural comparison of a parsed AST with a reference expression (desugared, bool-literal-folded)
+
+pub fn expr_matches(a: &ast::Expr, e: &rm::E) -> Result<(), String> {
+    use ast::ExprKind as K;
+    use rm::{BinOp, E};
+    let mismatch = || Err(format!("parsed `{a}` does not have the structure of the reference node {e:?}"));
+    match (a.expr_kind(), e) {
+        (K::Lit(l), E::Lit(v)) => {
+            if lit_to_v(l).as_ref() == Ok(v) {
+                Ok(())
+            } else {
+                mismatch()
+            }
+        }
+        (K::Var(v), E::Var(w)) => {
+            if v.to_string() == w.name() {
+                Ok(())
+            } else {
+                mismatch()
+            }
+        }
+        (K::If { test_expr, then_expr, else_expr }, E::If(c, x, y)) => {
+            expr_matches(test_expr, c)?;
+            expr_matches(then_expr, x)?;
+            expr_matches(else_expr, y)
+        }
+        (K::And { left, right }, E::And(x, y)) | (K::Or { left, right }, E::Or(x, y)) => {
+            expr_matches(left, x)?;
+            expr_matches(right, y)
+        }
+        (K::UnaryApp { op, arg }, E::Not(x)) if *op == ast::UnaryOp::Not => expr_matches(arg, x),
+        (K::UnaryApp { op, arg }, E::Neg(x)) if *op == ast::UnaryOp::Neg => expr_matches(arg, x),
+        (K::UnaryApp { op, arg }, E::IsEmpty(x)) if *op == ast::UnaryOp::IsEmpty => expr_matches(arg, x),
+        (K::BinaryApp { op, arg1, arg2 }, E::Bin(bop, x, y)) => {
+            let want = match bop {
+                BinOp::Eq => ast::BinaryOp::Eq,
+                BinOp::Lt => ast::BinaryOp::Less,
+                BinOp::Le => ast::BinaryOp::LessEq,
+                BinOp::Add => ast::BinaryOp::Add,
+                BinOp::Sub => ast::BinaryOp::Sub,
+                BinOp::Mul => ast::BinaryOp::Mul,
+                BinOp::In => ast::BinaryOp::In,
+                BinOp::Contains => ast::BinaryOp::Contains,
+                BinOp::ContainsAll => ast::BinaryOp::ContainsAll,
+                BinOp::ContainsAny => ast::BinaryOp::ContainsAny,
+                BinOp::GetTag => ast::BinaryOp::GetTag,
+                BinOp::HasTag => ast::BinaryOp::HasTag,
+                BinOp::Neq | BinOp::Gt | BinOp::Ge => return mismatch(), // sugar must have been removed
+            };
+            if *op != want {
+                return mismatch();
+            }
+            expr_matches(arg1, x)?;
+            expr_matches(arg2, y)
+        }
+        (K::ExtensionFunctionApp { fn_name, args }, E::Call(f, xs)) => {
+            if &fn_name.to_string() != f || args.len() != xs.len() {
+                return mismatch();
+            }
+            for (p, q) in args.iter().zip(xs) {
+                expr_matches(p, q)?;
+            }
+            Ok(())
+        }
+        (K::GetAttr { expr, attr }, E::GetAttr(x, n)) => {
+            if attr.as_str() != n {
+                return mismatch();
+            }
+            expr_matches(expr, x)
+        }
+        (K::HasAttr { expr, attr }, E::Has(x, p)) if p.len() == 1 => {
+            if attr.as_str() != p[0] {
+                return mismatch();
+            }
+            expr_matches(expr, x)
+        }
+        (K::Like { expr, pattern }, E::Like(x, p)) => {
+            let got: Vec<rm::Pat> = pattern
+                .iter()
+                .map(|pe| match pe {
+                    ast::PatternElem::Char(c) => rm::Pat::Char(*c),
+                    ast::PatternElem::Wildcard => rm::Pat::Star,
+                })
+                .collect();
+            if &got != p {
+                return mismatch();
+            }
+            expr_matches(expr, x)
+        }
+        (K::Is { expr, entity_type }, E::Is(x, t, None)) => {
+            if &entity_type.to_string() != t {
+                return mismatch();
+            }
+            expr_matches(expr, x)
+        }
+        (K::Set(xs), E::Set(ys)) => {
+            if xs.len() != ys.len() {
+                return mismatch();
+            }
+            for (p, q) in xs.iter().zip(ys) {
+                expr_matches(p, q)?;
+            }
+            Ok(())
+        }
+        (K::Record(m), E::Rec(fs)) => {
+            if m.len() != fs.len() {
+                return mismatch();
+            }
+            for (k, q) in fs {
+                match m.get(k.as_str()) {
+                    Some(p) => expr_matches(p, q)?,
+                    None => return mismatch(),
+                }
+            }
+            Ok(())
+        }
+        _ => mismatch(),
+    }
+}
+
+// ---------------------------------------------------------------------------------------------
+// policies / templates
+
+use rm::policy::{ActC, EntRef, PrC, RPolicy};
+
+fn por_matches(c: &ast::PrincipalOrResourceConstraint, r: &PrC) -> bool {
+    use ast::PrincipalOrResourceConstraint as C;
+    let refm = |er: &ast::EntityReference, rr: &EntRef| match (er, rr) {
+        (ast::EntityReference::EUID(u), EntRef::Uid(w)) => &uid_of_core(u) == w,
+        (ast::EntityReference::Slot(_), EntRef::Slot) => true,
+        _ => false,
+    };
+    match (c, r) {
+        (C::Any, PrC::Any) => true,
+        (C::Eq(e), PrC::Eq(r)) | (C::In(e), PrC::In(r)) => refm(e, r),
+        (C::Is(t), PrC::Is(s)) => &t.to_string() == s,
+        (C::IsIn(t, e), PrC::IsIn(s, r)) => &t.to_string() == s && refm(e, r),
+        _ => false,
+    }
+}
+
+fn action_matches(c: &ast::ActionConstraint, r: &ActC) -> bool {
+    match (c, r) {
+        (ast::ActionConstraint::Any, ActC::Any) => true,
+        (ast::ActionConstraint::Eq(u), ActC::Eq(w)) => &uid_of_core(u) == w,
+        (ast::ActionConstraint::In(us), ActC::In(w)) => us.len() == 1 && &uid_of_core(&us[0]) == w,
+        (ast::ActionConstraint::In(us), ActC::InSet(ws)) => us.len() == ws.len() && us.iter().zip(ws).all(|(u, w)| &uid_of_core(u) == w),
+        _ => false,
+    }
+}
+
+pub fn annotations_of(t: &ast::Template) -> BTreeMap<String, String> {
+    t.annotations().map(|(k, v)| (k.to_string(), v.val.to_string())).collect()
+}
+
+/// Does the parsed template have exactly the structure of the reference policy?
+pub fn template_matches(t: &ast::Template, r: &RPolicy) -> Result<(), String> {
+    if (t.effect() == ast::Effect::Permit) != r.permit {
+        return Err(format!("effect: parsed {:?}", t.effect()));
+    }
+    let want_ann: BTreeMap<String, String> = r.annotations.iter().cloned().collect();
+    let got_ann = annotations_of(t);
+    if got_ann != want_ann {
+        return Err(format!("annotations: parsed {got_ann:?}, written {want_ann:?}"));
+    }
+    if !por_matches(t.principal_constraint().as_inner(), &r.principal) {
+        return Err(format!("principal constraint: parsed `{}`, written {:?}", t.principal_constraint(), r.principal));
+    }
+    if !action_matches(t.action_constraint(), &r.action) {
+        return Err(format!("action constraint: parsed `{}`, written {:?}", t.action_constraint(), r.action));
+    }
+    if !por_matches(t.resource_constraint().as_inner(), &r.resource) {
+        return Err(format!("resource constraint: parsed `{}`, written {:?}", t.resource_constraint(), r.resource));
+    }
+    match (t.non_scope_constraints(), r.non_scope()) {
+        (None, None) => Ok(()),
+        (Some(a), Some(e)) => expr_matches(a, &e.desugar().fold_bool_lits()),
+        (a, e) => Err(format!("conditions: parsed {:?}, written {:?}", a.map(|x| x.to_string()), e)),
+    }
+}
+
+/// Structural equality of two templates (ids excluded).
+pub fn templates_equal(a: &ast::Template, b: &ast::Template) -> Result<(), String> {
+    if a.effect() != b.effect() {
+        return Err("effect differs".into());
+    }
+    if annotations_of(a) != annotations_of(b) {
+        return Err(format!("annotations differ: {:?} vs {:?}", annotations_of(a), annotations_of(b)));
+    }
+    if a.principal_constraint() != b.principal_constraint() {
+        return Err(format!("principal constraint differs: `{}` vs `{}`", a.principal_constraint(), b.principal_constraint()));
+    }
+    if a.action_constraint() != b.action_constraint() {
+        return Err(format!("action constraint differs: `{}` vs `{}`", a.action_constraint(), b.action_constraint()));
+    }
+    if a.resource_constraint() != b.resource_constraint() {
+        return Err(format!("resource constraint differs: `{}` vs `{}`", a.resource_constraint(), b.resource_constraint()));
+    }
+    let sa: BTreeSet<String> = a.slots().map(|s| s.id.to_string()).collect();
+    let sb: BTreeSet<String> = b.slots().map(|s| s.id.to_string()).collect();
+    if sa != sb {
+        return Err(format!("slots differ: {sa:?} vs {sb:?}"));
+    }
+    match (a.non_scope_constraints(), b.non_scope_constraints()) {
+        (None, None) => Ok(()),
+        (Some(x), Some(y)) if x.eq_shape(y) => Ok(()),
+        (x, y) => Err(format!("conditions differ:\n  {}\n  {}", x.map(|e| e.to_string()).unwrap_or_default(), y.map(|e| e.to_string()).unwrap_or_default())),
+    }
+}
